@@ -54,7 +54,10 @@ class Ctx:
 
     # ---------------------------------------------------------------- translator
     def regen(self, files):
-        cmd = [PY, os.path.join(VERIF, "translate", "gen_all.py")] + list(files)
+        # every generated file is refreshed from the current source (a Props file may depend on more of them than
+        # the check lists); a translator failure is charged to this property only for the files it lists - a failing
+        # file it depends on otherwise makes the build step fail
+        cmd = [PY, os.path.join(VERIF, "translate", "gen_all.py")]
         env = dict(os.environ, PYTHONPATH=REPO, PYTHONHASHSEED="0", DELB_REPO=REPO)
         with coq_lock():
             p = subprocess.run(cmd, capture_output=True, text=True, env=env, timeout=300)
@@ -67,6 +70,8 @@ class Ctx:
             return False
         ok = True
         for name, s in st.items():
+            if files and name not in files:
+                continue
             self.obligations.append("translate:" + name)
             if s.get("ok"):
                 self.discharged.append("translate:" + name)
